@@ -195,7 +195,7 @@ def main(check_name, tier, replay=None):
         base["map"] = {**base["map"], **base_b["map"]}
     from vf.checks import parserlevel as _PL
 
-    for g in ("C", "D", "E", "F", "G"):
+    for g in ("C", "D", "E", "F", "G", "H"):
         base_g = findings.load_baseline(mod.BASELINE + "." + g, canon) if getattr(mod, "BASELINE", None) else None
         if base_g is not None and not baseline_mode:
             gh = _PL.GROUP_MODULES[g].content_hash()
@@ -232,7 +232,7 @@ def main(check_name, tier, replay=None):
             from vf import universe_b
 
             bname, uh = mod.BASELINE + ".B", universe_b.content_hash()
-        if group in ("C", "D", "E", "F", "G"):
+        if group in ("C", "D", "E", "F", "G", "H"):
             from vf.checks import parserlevel as _PL2
 
             bname, uh = mod.BASELINE + "." + group, _PL2.GROUP_MODULES[group].content_hash()
